@@ -13,7 +13,7 @@
                                the board afterwards, re-keying decision)
      frame q a tail trailer    STX master a command id ++ tail [++ xor EOT]
      handle sl t m             System._parse: new map, new tick, outcome (OTrue / OReply r / OExc) *)
-From DS Require Import Base.Prelude Gen.RcvTables Model.RcvModel Proofs.RcvAssoc Proofs.RcvProofs Proofs.RcvBoards Proofs.RcvFraming Proofs.RcvExamples.
+From DS Require Import Base.Prelude Gen.RcvTables Model.RcvModel Proofs.RcvAssoc Proofs.RcvProofs Proofs.RcvBoards Proofs.RcvFraming Proofs.RcvForms Proofs.RcvExamples.
 
 (* ---- what the two request forms are, byte for byte, and what _parse reads off them ---- *)
 Theorem C18_decode_abbr : forall k sa ma cid p fill,
@@ -232,3 +232,32 @@ Theorem C18_tables_dio_chains :
     PORT_NUMBER_07; PORT_NUMBER_08; PORT_NUMBER_11; PORT_NUMBER_12; PORT_NUMBER_13; PORT_NUMBER_14].
 Proof. exact dio_chains_ok. Qed.
 Print Assumptions C18_tables_dio_chains.
+
+(* ---- broadcast, refined ---- *)
+(* each frame of a broadcast answer is the answer of that very board computed on the state it had before
+   the broadcast (own_frame): the boards answer in turn and do not affect each other except through the
+   occupancy of addresses *)
+Theorem C18_broadcast_all_own : forall clk mkdate render sl t m q sl' t' o,
+  decode m = Some (SLAVE_ADDR_BROADCAST_WITH_ANSWER, q) -> NoDup (keys_of sl) -> sl <> [] ->
+  handle clk mkdate render sl t m = (sl', t', o) -> o <> OExc ->
+  exists frames, o = OReply (concat frames) /\
+                 Forall2 (own_frame clk mkdate render q sl) (keys_of sl) frames.
+Proof. exact broadcast_all_own. Qed.
+Print Assumptions C18_broadcast_all_own.
+
+(* both forms of a broadcast request (0x00 or 0x7F): same clock use, maps equal up to the recorded command
+   code, and board by board (l lists address and answer tail in map order) the same answer code and data *)
+Theorem C18_forms_agree_broadcast : forall clk mkdate render sl t ma_ mb_ sa ma cid k pa pe,
+  decode ma_ = Some (sa, mkReq ma (abbr_code k) cid false false pa) ->
+  decode mb_ = Some (sa, mkReq ma (ext_code k) cid true false pe) ->
+  params_agree k pa pe -> is_broadcast sa = true -> NoDup (keys_of sl) ->
+  exists l : list (Z * list Z),
+    let '(sla, ta, oa) := handle clk mkdate render sl t ma_ in
+    let '(sle, te, oe) := handle clk mkdate render sl t mb_ in
+    ta = te /\ sl_rel sla sle /\
+    ((oa = OExc /\ oe = OExc) \/
+     (map fst l = keys_of sl /\
+      oa = reply_of (send_answer sa) (frames_of (mkReq ma (abbr_code k) cid false false pa) false l) /\
+      oe = reply_of (send_answer sa) (frames_of (mkReq ma (ext_code k) cid true false pe) true l))).
+Proof. exact forms_agree_broadcast. Qed.
+Print Assumptions C18_forms_agree_broadcast.
